@@ -70,7 +70,7 @@ func (t *Task) WildcardMatch(name string) (bool, []string) {
 	for i, part := range parts {
 		parts[i] = regexp.QuoteMeta(part)
 	}
-	regexStr := fmt.Sprintf("^%s$", strings.Join(parts, "(.*)"))
+	regexStr := fmt.Sprintf("(?s)^%s$", strings.Join(parts, "(.*)"))
 	regex := regexp.MustCompile(regexStr)
 	wildcards := regex.FindStringSubmatch(name)
 	wildcardCount := strings.Count(t.Task, "*")
